@@ -529,13 +529,19 @@ def run(tier):
                                 param.set('charset', 'E')
                                 for c in d.codes:
                                     got = real.elem(d, 's', c, ())
+                                    rfound = d.regex is not None and re.search(d.regex, c, re.S) is not None
+                                    want = spec_elem(d, (), 'E', icvn, False, rfound, 's', c)
                                     res.count()
                                     admissible_checked += 1
-                                    if got[0] != 'ok' or got[2] or not got[1]:
-                                        res.violation(key, 'inline code %r listed for %s (%s %d..%d) is rejected by is_valid: %s' %
-                                                      (c, d.refdes, d.ty, d.mn, d.mx, got[1:3]),
-                                                      {'map': mapfile, 'path': d.path, 'kind': 's', 'value': c, 'exclude': None,
-                                                       'charset': 'E', 'type_list': [], 'required': [True, []]})
+                                    rp = {'map': mapfile, 'path': d.path, 'kind': 's', 'value': c, 'exclude': None,
+                                          'charset': 'E', 'type_list': [], 'required': [True, []]}
+                                    if want:
+                                        # the definition contradicts itself: a listed code breaks the node's own type/length rules
+                                        res.violation(key, 'inline code %r listed for %s (%s %d..%d) is itself not admissible: is_valid -> %s, '
+                                                      'the definition implies %s' % (c, d.refdes, d.ty, d.mn, d.mx, got[1:3], sorted(want)), rp)
+                                    elif got[0] != 'ok' or got[2] or got[1] is not True:
+                                        res.violation('pred:declared-code-rejected', '%s %s: inline code %r (%s %d..%d) meets the definition but '
+                                                      'is_valid -> %s' % (mapfile, d.path, c, d.ty, d.mn, d.mx, got[1:3]), rp)
                     if d.dangling:
                         continue
                     if not (take or d.regex is not None):
